@@ -123,6 +123,9 @@ class Ctx:
         elif re.search(r"Error: Invariant (\w+) is violated", out):
             res["status"] = "invariant"
             res["invariant"] = re.search(r"Error: Invariant (\w+) is violated", out).group(1)
+        elif re.search(r"The invariant of (\w+) is equal to FALSE", out):
+            res["status"] = "invariant"
+            res["invariant"] = re.search(r"The invariant of (\w+) is equal to FALSE", out).group(1)
         elif "Error: Deadlock reached" in out:
             res["status"] = "deadlock"
         elif "Temporal properties were violated" in out or "Error: Action property" in out:
